@@ -15,12 +15,12 @@ LEVEL = "exploration"
 BUDGET = {"quick": 60, "thorough": 420}
 RULE = (
     "case = (result size n, select-list pattern incl. repeated/quoted names and self-joins, cursor kind, fetch script "
-    "over {fetchone, fetchmany(k), arraysize:=a;fetchmany(), fetchall, fetch_pandas_all, rowcount, re-execute}); all scripts "
+    "over {fetchone, fetchmany(k), arraysize:=a;fetchmany(), fetchall, fetch_pandas_all, rowcount, re-execute, executemany of a query with 0..3 parameter sets}); all scripts "
     "up to a bounded length are enumerated for small n, then random scripts for n up to 3000. A case is non-trivial when "
     "n>=1 and the script hands out at least one row and at least one model comparison was evaluated; distinct = distinct "
     "(n, pattern, cursor kind, script)."
 )
-REQUIRED = ["cmp_handout", "cmp_exhaustion", "cmp_width", "cmp_dict", "cmp_before_execute"]
+REQUIRED = ["cmp_handout", "cmp_exhaustion", "cmp_width", "cmp_dict", "cmp_before_execute", "executemany_queries"]
 ASSUMPTIONS = [
     "fixture table is created through the raw engine connection; expected rows are computed from the row id",
     "DictCursor is only compared when the reported column names are distinct (a dict cannot hold repeated keys)",
@@ -178,6 +178,12 @@ def _gen_fixed(tier: str, r: random.Random, max_n: int, max_len: int):
             for mid in (["one"], ["many", 2], ["all"], ["rowcount"]):
                 yield {"n": 4, "pat": {"kind": "shape", "cols": k1}, "dict": d, "part": "shape",
                        "script": [mid, ["reexec", 4, {"kind": "shape", "cols": k2}], ["one"], ["all"], ["reexec", 3, {"kind": "shape", "cols": k3}], ["many", 5]]}
+    # executemany of a query: the cursor holds the result of the last parameter set (nothing changes for no sets at all)
+    for ks in ([2, 5], [5, 2], [3], [], [0, 4], [4, 0], [1, 1, 1], [7, 300, 2]):
+        for d in (False, True):
+            for first in (["one"], ["rowcount"], ["many", 2]):
+                yield {"n": 4, "pat": FIXED_PATTERNS[0], "dict": d, "part": "execmany",
+                       "script": [first, ["reexec_many", ks], ["rowcount"], ["one"], ["rowcount"], ["many", 3], ["all"], ["rowcount"]]}
     # before-execute cases
     for op in (["one"], ["all"], ["many", 2], ["pandas"], ["as_many", 3]):
         for d in (False, True):
@@ -214,8 +220,10 @@ def _gen_random(tier: str, r: random.Random, max_n: int, max_len: int):
                 script.append(["pandas"])
             elif y < 0.92:
                 script.append(["rowcount"])
-            else:
+            elif y < 0.98:
                 script.append(["reexec", r.randint(0, 40), _random_pattern(r)])
+            else:
+                script.append(["reexec_many", [r.randint(0, 12) for _ in range(r.randint(0, 3))]])
         yield {"n": n, "pat": _random_pattern(r), "dict": r.random() < 0.35, "script": script, "part": "rand"}
 
 
@@ -357,13 +365,23 @@ def run_case(case: dict, env: core.Env) -> None:
                 return
             pos = 0
             continue
+        if kind == "reexec_many":
+            env.count("executemany_queries")
+            msql = "SELECT ID, V FROM BIG WHERE ID < %s ORDER BY ID"
+            cur.executemany(msql, [(k,) for k in op[1]])
+            if op[1]:
+                n, pat, names = op[1][-1], {"kind": "executemany"}, ["ID", "V"]
+                sql, rows, dup, pos = f"executemany({msql!r}, {op[1]})", [(i, 2 * i) for i in range(n)], "distinct-names", 0
+                if not _check_description(env, cur, names, sql):
+                    return
+            continue
         if kind == "rowcount":
             env.count("cmp_rowcount")
             want_rc = rows[0][0] if pat["kind"] == "dml" else len(rows)
             if pat["kind"] == "nop":
                 want_rc = 1
             if cur.rowcount != want_rc:
-                env.witness("C05/rowcount", f"rowcount={cur.rowcount} expected {want_rc} for {sql}")
+                env.witness("C05/rowcount" + ("/after-executemany" if pat["kind"] == "executemany" else ""), f"rowcount={cur.rowcount} expected {want_rc} for {sql}; script {case['script'][:step + 1]}")
             continue
         if kind == "pandas":
             env.count("cmp_pandas")
